@@ -116,3 +116,11 @@ reg('C17', 'runtime monitoring: law monitor + reference definitions for HTML sta
     'equal per-element match().  Two open findings are recognised only when the observed sets equal the reference '
     'prediction with the finding\'s switch on.',
     'Trusted: vlib/refhtml.py definitions and calendar; unspecified corners listed in ASSUMPTIONS are not compared.')
+reg('C18', 'runtime monitoring: independent-calendar oracle observed through :in-range/:out-of-range, exhaustive year sweep',
+    'Validity of every week {00,01,52,53,54} of every year 1..12000, of date/month strings on swept years, of all times, of '
+    'years with 1-20 digits, of one-character-off shapes and 40 number spellings is observed through the real '
+    ':in-range/:out-of-range on API-built inputs and compared with an own calendar (no datetime); ordering is checked on '
+    'random (min, max, value) triples per type incl. equal bounds and wrapped time ranges.  The open week-53 finding is '
+    'recognised only when the observation equals the calendar with that one switch on.',
+    'Trusted: vlib/refhtml.py calendar (cross-checked against datetime for years 1..9999 in tools/selfcheck.py); only the '
+    'string shapes the statement enumerates are treated as valid.')
